@@ -149,6 +149,25 @@ def exec_case(ctx, r):
         """Fit the adapter; in a third of the cases the SAME data object held other values during an
         earlier fit + evaluate and was then overwritten in place (the scores must follow the last fit)."""
         a = build(spec_a)
+        # The adapter was built around a cost holding ANOTHER fixed parameter (zero mean, unit variance) and the
+        # caller then gave the cost object they still hold its real parameter (set_params on the cost, not on the
+        # adapter).  The adapter's hyper-parameters now say the real parameter, and so must its scores.
+        inner_key = [k for k, v in spec_a["kw"].items() if isinstance(v, dict) and "cls" in v]
+        real = cost_spec["kw"].get("param") if cost_spec else None
+        if inner_key and real is not None and kind in COST_KINDS and (r["sub_seed"] // 3) % 3 == 0:
+            alt = 0.0 if kind == "L2Cost" else (0.0, 1.0)
+            try:
+                a0 = build({"cls": spec_a["cls"], "kw": dict(spec_a["kw"], **{
+                    inner_key[0]: {"cls": cost_spec["cls"], "kw": dict(cost_spec["kw"], param=(
+                        alt if not isinstance(alt, tuple) else {"tuple": list(alt)}))}})})
+                held = getattr(a0, inner_key[0])  # the object the caller passed in and still holds
+                if (r["sub_seed"] // 9) % 2:
+                    a0.fit(data)  # ... possibly after the adapter was already used once
+                held.set_params(param=build(real))
+                a = a0
+                ctx.stat("adapters_whose_cost_got_its_parameter_after_construction")
+            except Exception:  # noqa (the detour itself is not what is judged)
+                a = build(spec_a)
         if r["sub_seed"] % 3 == 0 and not r.get("long"):
             obj = (data[::-1] * 1.7 + 0.4).copy()
             a.fit(obj)
